@@ -115,6 +115,7 @@ pub fn recursion_marking(m: &Model, ctx: &mut Ctx, rule: &str) {
         ("choice-and-sequence", vec![("Expr", choice(vec![option("lit", integer()), option("neg", reference("Negation"))])), ("Negation", seq("Sequence", vec![member("operand", reference("Expr"))]))], true),
         ("two-choices", vec![("Xx", choice(vec![option("y", reference("Yy")), option("n", integer())])), ("Yy", choice(vec![option("x", reference("Xx")), option("m", integer())]))], true),
         ("inline-sequence", vec![("Tree", choice(vec![option("leaf", integer()), option("node", seq("Sequence", vec![member("left", reference("Tree")), member("right", reference("Tree"))]))]))], true),
+        ("through-an-extension-group", vec![("Sq", seq("Sequence", vec![member("a", integer()), member("ext_group_d", seq("Sequence", vec![member("d", seq("Sequence", vec![member("e", reference("Sq"))]))]))]))], true),
         ("through-a-list", vec![("Node", seq("Sequence", vec![member("children", list_of(reference("Node")))]))], false),
         ("no-cycle", vec![("Aa", seq("Sequence", vec![member("b", reference("Bb")), member("c", reference("Bb"))])), ("Bb", seq("Sequence", vec![member("x", integer())]))], false),
         ("diamond", vec![("Aa", seq("Sequence", vec![member("b", reference("Bb")), member("c", reference("Cc"))])), ("Bb", seq("Sequence", vec![member("d", reference("Dd"))])), ("Cc", seq("Sequence", vec![member("d", reference("Dd"))])), ("Dd", seq("Sequence", vec![member("x", integer())]))], false),
@@ -193,6 +194,26 @@ pub fn recursion_marking(m: &Model, ctx: &mut Ctx, rule: &str) {
                 }
             }
             false
+        }
+        // an extension addition group is rendered `#[rasn(extension_addition_group)] pub ext_group_x: Option<Group>`, and rasn's
+        // derive asks `Group: Constructed` — which `Box<Group>` is not (rasn 0.27 implements AsnType for Box<T>, not Constructed):
+        // the boundary of a cycle that runs through a group must lie on a component *inside* the group
+        if label == "through-an-extension-group" {
+            ctx.oblige(rule, "mark:group-not-boxed", true);
+            let group_flagged = table.values().any(|t| match t {
+                Val::Ctor(_, p, _) => match p.first() {
+                    Some(Val::Ctor(_, _, f)) => match f.get("members") {
+                        Some(Val::List(ms)) => ms.iter().any(|mm| matches!(mm, Val::Ctor(_, _, mf) if matches!(mf.get("is_recursive"), Some(Val::Bool(true))) && matches!(mf.get("name"), Some(Val::Str(n)) if n.starts_with("ext_group_")))),
+                        _ => false,
+                    },
+                    _ => false,
+                },
+                _ => false,
+            });
+            if group_flagged {
+                ctx.violate(rule, "extension-group-boxed", &f.file, f.line,
+                    "`Sq ::= SEQUENCE { a INTEGER, ..., [[ d SEQUENCE { e Sq OPTIONAL } ]] }`: the component flagged recursive is the extension addition group itself, which is then declared `#[rasn(extension_addition_group)] pub ext_group_d: Option<Box<SqExtGroupD>>` — rasn's derive requires the group type to be `Constructed`, which `Box<_>` is not (E0277); the boundary has to be a component inside the group");
+            }
         }
         let open_cycle: Vec<String> = graph.keys().filter(|k| on_cycle(k, k, &graph, &mut vec![])).cloned().collect();
         if !open_cycle.is_empty() {
